@@ -14,7 +14,25 @@
 //!  * `rand` — long random histories on in-memory and on file-backed servers (restart = the
 //!             database file is closed and reopened by a fresh `Backend`), with occasional
 //!             `initialise_helper` after a restart and ill-formed ops (commit without a
-//!             transaction, begin while one is open).
+//!             transaction, begin while one is open);
+//!  * `bnd`  — only in search mode (`--budget` > 1, i.e. a fingerprint changed or an obligation
+//!             broke): directed histories around the situations the oracle turns on — commits on a
+//!             repeated / regressed clock, aborted, failing (`fail ts`: an operation inside the
+//!             transaction returns Err, the transaction is dropped) and crashed transactions,
+//!             then a restart at an offset <= 0 relative to the last committed ts or to the last
+//!             wall clock, then a begin at the same or a lower clock.
+//!
+//! Failure accounting: model disagreements and oracle failures are kept apart.  At most
+//! `MAX_MODEL` model disagreements are recorded (shrunk); after a disagreement the rest of that
+//! history is still executed on the implementation and judged by the oracle (the oracle only reads
+//! the implementation's outputs), and once `MAX_MODEL` are recorded the model is no longer asked
+//! at all.  The run stops early only when an ORACLE failure has been found and shrunk.
+//!
+//! `--selftest persist-curtime` (never used by `./check`): harness-side sabotage that, at every
+//! restart, overwrites the durable ts_max with the wall clock of the last committed transaction
+//! (what `set_db_ts_max(curtime)` instead of `set_db_ts_max(cid.ts)` in `commit()` would have
+//! stored) through the public `Backend::write().set_db_ts_max()`.  The search must then report an
+//! impl-vs-oracle failure; see notes/C07.md.
 use hlib::*;
 use kanidm_proto::internal::FsType;
 use kanidmd_lib::be::{Backend, BackendConfig};
@@ -45,6 +63,19 @@ struct Sut {
     uuids: Vec<Uuid>,
     /// cid observed on the probe inside the open transaction
     open_cid: Option<Cid>,
+    /// selftest only: wall clock of the open / of the last committed transaction
+    sabotage: bool,
+    open_clock: Option<u64>,
+    last_commit_clock: Option<u64>,
+}
+
+/// How a session is run.
+#[derive(Clone, Copy)]
+struct Opts {
+    /// ask the Lean model and compare replies
+    model: bool,
+    /// `--selftest persist-curtime`
+    sabotage: bool,
 }
 
 fn mk_backend(path: Option<&std::path::Path>) -> (Backend, Schema) {
@@ -63,7 +94,7 @@ fn dur(ns: u64) -> Duration {
 }
 
 impl Sut {
-    fn boot(file: Option<PathBuf>, ts: u64) -> Sut {
+    fn boot(file: Option<PathBuf>, ts: u64, sabotage: bool) -> Sut {
         let rt = tokio::runtime::Builder::new_current_thread().enable_all().build().unwrap();
         if let Some(p) = &file {
             let _ = std::fs::remove_file(p);
@@ -82,6 +113,9 @@ impl Sut {
             counter: 0,
             uuids: vec![],
             open_cid: None,
+            sabotage,
+            open_clock: None,
+            last_commit_clock: None,
         }
     }
 
@@ -117,7 +151,7 @@ impl Sut {
     fn exec(&mut self, op: &str) -> String {
         let t: Vec<&str> = op.split(' ').collect();
         match t.as_slice() {
-            ["begin", ts] => {
+            [k @ ("begin" | "fail"), ts] => {
                 if self.txn.is_some() {
                     return "busy".into();
                 }
@@ -141,7 +175,9 @@ impl Sut {
                     e.add_ava(Attribute::Class, EntryClass::ExtensibleObject.to_value());
                     e.add_ava(Attribute::Name, Value::new_iname("c07probe"));
                     e.add_ava(Attribute::Uuid, Value::Uuid(PROBE));
-                    self.probe_in_txn = true;
+                    if *k == "begin" {
+                        self.probe_in_txn = true;
+                    }
                     txn.internal_create(vec![e])
                 };
                 if let Err(e) = r {
@@ -151,9 +187,26 @@ impl Sut {
                     Ok(c) => c,
                     Err(e) => return format!("err:{e}"),
                 };
-                self.txn = Some(txn);
                 let reply = format!("cid {} {}", c.ts.as_nanos(), self.uidx(c.s_uuid));
+                if *k == "fail" {
+                    // a transaction in which an operation fails (second entry with the probe's
+                    // uuid) and which its caller therefore drops: stamped, never committed
+                    let mut e = Entry::new();
+                    e.add_ava(Attribute::Class, EntryClass::Object.to_value());
+                    e.add_ava(Attribute::Class, EntryClass::ExtensibleObject.to_value());
+                    e.add_ava(Attribute::Name, Value::new_iname("c07probe_dup"));
+                    e.add_ava(Attribute::Uuid, Value::Uuid(PROBE));
+                    let r = txn.internal_create(vec![e]);
+                    self.open_cid = Some(c);
+                    drop(txn);
+                    return match r {
+                        Err(_) => format!("{reply} failed"),
+                        Ok(()) => "err:fail-op-succeeded".into(),
+                    };
+                }
+                self.txn = Some(txn);
                 self.open_cid = Some(c);
+                self.open_clock = Some(ts);
                 reply
             }
             ["commit"] => match self.txn.take() {
@@ -164,6 +217,7 @@ impl Sut {
                             self.probe_committed = true;
                         }
                         self.probe_in_txn = false;
+                        self.last_commit_clock = self.open_clock.take();
                         "ok".into()
                     }
                     Err(e) => {
@@ -192,6 +246,12 @@ impl Sut {
                     (None, Some(p)) => mk_backend(Some(p.as_path())),
                     _ => unreachable!(),
                 };
+                if let (true, Some(c)) = (self.sabotage, self.last_commit_clock) {
+                    // selftest: what a commit() persisting `curtime` would have left behind
+                    let mut w = be.write().expect("be.write");
+                    w.set_db_ts_max(dur(c)).expect("set_db_ts_max");
+                    w.commit().expect("be commit");
+                }
                 match QueryServer::new(be, schema, "example.com".to_string(), dur(ts)) {
                     Ok(qs) => {
                         self.qs = Some(Box::new(qs));
@@ -207,7 +267,10 @@ impl Sut {
                 let ts: u64 = ts.parse().unwrap();
                 let qs: &QueryServer = self.qs.as_ref().unwrap();
                 match self.rt.block_on(qs.initialise_helper(dur(ts), DOMAIN_TGT_LEVEL)) {
-                    Ok(()) => "ok".into(),
+                    Ok(()) => {
+                        self.last_commit_clock = Some(ts);
+                        "ok".into()
+                    }
                     Err(e) => format!("err:init:{e:?}"),
                 }
             }
@@ -232,33 +295,45 @@ impl Drop for Sut {
 /// One server + one model instance + the oracle's memory, fed the same op lines.
 struct Session {
     sut: Sut,
-    drv: Driver,
+    /// the Lean model; `None` when the run no longer compares with it
+    drv: Option<Driver>,
+    /// a model disagreement happened in this session: the model is not asked any more (its state
+    /// no longer matches), the implementation and the oracle carry on
+    diverged: bool,
+    opts: Opts,
     file: bool,
     log: Vec<String>,
     /// oracle: cids of committed transactions as observed on the probe entry, (ts, uuid)
     committed: Vec<(u128, Uuid)>,
     committed_max: Option<(u128, Uuid)>,
     open: Option<(u128, Uuid)>,
-    fail: Option<Failure>,
+    /// first model disagreement / first oracle failure of this session (kept apart)
+    model_fail: Option<Failure>,
+    oracle_fail: Option<Failure>,
 }
 
 const BOOT: u64 = BASE;
 
 impl Session {
-    fn new(driver: &str, file: Option<PathBuf>) -> Session {
+    fn new(driver: &str, file: Option<PathBuf>, opts: Opts) -> Session {
         let is_file = file.is_some();
         let mut s = Session {
-            sut: Sut::boot(file, BOOT),
-            drv: Driver::spawn(driver),
+            sut: Sut::boot(file, BOOT, opts.sabotage),
+            drv: if opts.model { Some(Driver::spawn(driver)) } else { None },
+            diverged: false,
+            opts,
             file: is_file,
             log: vec![],
             committed: vec![],
             committed_max: None,
             open: None,
-            fail: None,
+            model_fail: None,
+            oracle_fail: None,
         };
-        let r = s.drv.ask(&format!("boot 0 {BOOT}"));
-        assert_eq!(r, "ok");
+        if let Some(d) = s.drv.as_mut() {
+            let r = d.ask(&format!("boot 0 {BOOT}"));
+            assert_eq!(r, "ok");
+        }
         // bring the database up (schema, builtin entries) and create the probe entry; these are
         // ordinary ops, seen by the model and the oracle alike
         for op in [format!("init {}", BOOT + 10), format!("begin {}", BOOT + 5), "commit".to_string()] {
@@ -267,41 +342,70 @@ impl Session {
         s
     }
 
+    fn requests(&self) -> u64 {
+        self.drv.as_ref().map(|d| d.requests).unwrap_or(0)
+    }
+
     fn input(&self) -> serde_json::Value {
-        json!({"backend": if self.file { "file" } else { "mem" }, "ops": self.log})
+        let mut v = json!({"backend": if self.file { "file" } else { "mem" }, "ops": self.log});
+        if self.opts.sabotage {
+            v["selftest"] = json!("persist-curtime");
+        }
+        v
     }
 
     fn failure(&mut self, kind: &str, class: &str, expected: String, observed: String) {
-        if self.fail.is_none() {
-            self.fail = Some(Failure {
-                kind: kind.into(),
-                class: class.into(),
-                input: self.input(),
-                expected,
-                observed,
-            });
+        let f = Failure {
+            kind: kind.into(),
+            class: class.into(),
+            input: self.input(),
+            expected,
+            observed,
+        };
+        let slot = if kind == "impl-vs-oracle" { &mut self.oracle_fail } else { &mut self.model_fail };
+        if slot.is_none() {
+            *slot = Some(f);
         }
+    }
+
+    /// The model's reply to one op line (`fail ts` is `begin ts` followed by `abort` there).
+    fn ask_model(d: &mut Driver, op: &str) -> String {
+        if let Some(ts) = op.strip_prefix("fail ") {
+            let m1 = d.ask(&format!("begin {ts}"));
+            if !m1.starts_with("cid ") {
+                return m1;
+            }
+            let m2 = d.ask("abort");
+            return if m2 == "ok" { format!("{m1} failed") } else { format!("{m1} {m2}") };
+        }
+        d.ask(op)
     }
 
     /// Send one op to implementation and model; compare; evaluate the oracle.
     fn apply(&mut self, op: &str, rep: &mut Option<&mut Report>) -> String {
         self.log.push(op.to_string());
         let got = self.sut.exec(op);
-        let model = self.drv.ask(op);
         if let Some(rep) = rep {
             rep.count(&format!("op:{}", op.split(' ').next().unwrap()));
         }
-        if got != model {
-            self.failure("impl-vs-model", "unclassified", model.clone(), got.clone());
+        if !self.diverged {
+            if let Some(d) = self.drv.as_mut() {
+                let model = Self::ask_model(d, op);
+                if got != model {
+                    self.failure("impl-vs-model", "unclassified", model, got.clone());
+                    self.diverged = true;
+                }
+            }
         }
         // ---- oracle: the property statement on what the implementation showed -----------
+        // (reads only `got` and the cids observed on the implementation, never the model)
         let kind = op.split(' ').next().unwrap();
         match kind {
-            "begin" if got.starts_with("cid ") => {
+            "begin" | "fail" if got.starts_with("cid ") => {
                 let c = self.sut.open_cid.clone().unwrap();
                 let me = (c.ts.as_nanos(), c.s_uuid);
                 if let Some(rep) = rep {
-                    let req: u128 = op[6..].parse().unwrap();
+                    let req: u128 = op[kind.len() + 1..].parse().unwrap();
                     rep.count(if me.0 == req { "lamport:clock-kept" } else { "lamport:bumped-past-max" });
                     if let Some(m) = self.committed_max {
                         rep.count(if req < m.0 {
@@ -323,7 +427,8 @@ impl Session {
                         );
                     }
                 }
-                self.open = Some(me);
+                // a failed transaction was stamped but is already gone
+                self.open = if kind == "begin" { Some(me) } else { None };
             }
             "commit" if got == "ok" => {
                 if let Some(me) = self.open.take() {
@@ -378,7 +483,11 @@ impl Session {
     /// Model's committed history = the oracle's record of what the implementation committed.
     /// (`init` transactions touch no probe: the model lists them, the observation cannot.)
     fn check_hist(&mut self, init_cids: usize) {
-        let h = self.drv.ask("hist");
+        if self.diverged {
+            return;
+        }
+        let Some(d) = self.drv.as_mut() else { return };
+        let h = d.ask("hist");
         let n_model = if h == "-" { 0 } else { h.split(',').count() };
         if n_model != self.committed.len() + init_cids {
             self.failure(
@@ -433,6 +542,7 @@ fn op_line(k: char, base: u64, d: i64) -> String {
         'b' => format!("begin {ts}"),
         'r' => format!("restart {ts}"),
         'i' => format!("init {ts}"),
+        'f' => format!("fail {ts}"),
         'c' => "commit".into(),
         'a' => "abort".into(),
         _ => unreachable!(),
@@ -444,43 +554,128 @@ fn tmp_db(tag: &str) -> PathBuf {
     PathBuf::from(format!("/tmp/c07/{}-{}.db", std::process::id(), tag))
 }
 
-/// Re-run an op list on a fresh server; returns the first failure.
-fn replay_ops(driver: &str, file: bool, ops: &[String]) -> Option<Failure> {
-    let mut s = Session::new(driver, if file { Some(tmp_db("replay")) } else { None });
+/// Re-run an op list on a fresh server; returns (first model disagreement, first oracle failure).
+/// Stops at the first oracle failure, and at the first model disagreement when `stop_on_model`.
+fn replay_ops(
+    driver: &str,
+    file: bool,
+    ops: &[String],
+    opts: Opts,
+    stop_on_model: bool,
+) -> (Option<Failure>, Option<Failure>) {
+    let mut s = Session::new(driver, if file { Some(tmp_db("replay")) } else { None }, opts);
     // the session's own setup ops are the first three of every log
     for op in ops.iter().skip(3) {
         s.apply(op, &mut None);
-        if s.fail.is_some() {
+        if s.oracle_fail.is_some() || (stop_on_model && s.model_fail.is_some()) {
             break;
         }
     }
-    s.fail.take()
+    (s.model_fail.take(), s.oracle_fail.take())
 }
 
-fn shrink_failure(driver: &str, file: bool, f: Failure) -> Failure {
+/// Minimise a failure: shortest reproducing suffix of the history first (histories are long, the
+/// cause is recent), then delta debugging.  Oracle failures are re-run without the model and must
+/// keep their class; model disagreements must stay model disagreements.
+fn shrink_failure(driver: &str, file: bool, f: Failure, sabotage: bool) -> Failure {
     let ops: Vec<String> =
         f.input["ops"].as_array().unwrap().iter().map(|v| v.as_str().unwrap().to_string()).collect();
     if ops.len() < 3 {
         return f;
     }
+    let want_oracle = f.kind == "impl-vs-oracle";
+    let opts = Opts { model: !want_oracle, sabotage };
+    let class = f.class.clone();
     let setup: Vec<String> = ops[..3].to_vec();
-    let mut budget = 20;
-    let kind = f.kind.clone();
-    let small = shrink_list(ops[3..].to_vec(), |cand| {
+    // replays are the cost (one server boot each): a fixed number per failure, the final
+    // confirming replay included
+    let mut budget: u32 = if want_oracle { 60 } else { 30 };
+    let mut hit = |cand: &[String]| -> Option<Failure> {
         if budget == 0 {
-            return false;
+            return None;
         }
         budget -= 1;
         let mut all = setup.clone();
         all.extend_from_slice(cand);
-        matches!(replay_ops(driver, file, &all), Some(g) if g.kind == kind)
-    });
-    let mut all = setup;
-    all.extend(small);
-    match replay_ops(driver, file, &all) {
-        Some(g) if g.kind == kind => g,
-        _ => f,
+        let (m, o) = replay_ops(driver, file, &all, opts, !want_oracle);
+        if want_oracle {
+            o.filter(|g| g.class == class)
+        } else {
+            m
+        }
+    };
+    let body: Vec<String> = ops[3..].to_vec();
+    let mut cur = body.clone();
+    let mut best: Option<Failure> = None;
+    for k in [1usize, 2, 3, 4, 6, 8, 12, 16, 24, 32, 48, 64, 96, 128, 192, 256] {
+        if k >= body.len() {
+            break;
+        }
+        let cand = &body[body.len() - k..];
+        if let Some(g) = hit(cand) {
+            cur = cand.to_vec();
+            best = Some(g);
+            break;
+        }
     }
+    // every accepted candidate's own replay result is kept, so no confirming replay is needed
+    let mut last: Option<Failure> = None;
+    let _ = shrink_list(cur, |cand| match hit(cand) {
+        Some(g) => {
+            last = Some(g);
+            true
+        }
+        None => false,
+    });
+    last.or(best).unwrap_or(f)
+}
+
+/// At most this many model disagreements are recorded; then the model is no longer asked.
+const MAX_MODEL: usize = 4;
+
+/// What the run has found so far, model disagreements and oracle failures apart.
+struct Found {
+    driver: String,
+    sabotage: bool,
+    model: Vec<Failure>,
+    oracle: Vec<Failure>,
+    /// cases (sequences / histories) that ran, wholly or in part, without the model
+    oracle_only_cases: u64,
+}
+
+impl Found {
+    fn opts(&self) -> Opts {
+        Opts { model: self.model.len() < MAX_MODEL, sabotage: self.sabotage }
+    }
+    /// stop early only once the property itself has a concrete failing input
+    fn done(&self) -> bool {
+        !self.oracle.is_empty()
+    }
+    /// a case (sequence / history) ended: was it judged, wholly or partly, by the oracle alone?
+    fn case_done(&mut self, sess: &Session) {
+        if sess.diverged || sess.drv.is_none() {
+            self.oracle_only_cases += 1;
+        }
+    }
+    fn collect(&mut self, sess: &mut Session) {
+        if let Some(f) = sess.oracle_fail.take() {
+            let f = shrink_failure(&self.driver, sess.file, f, self.sabotage);
+            self.oracle.push(f);
+        }
+        if let Some(f) = sess.model_fail.take() {
+            if self.model.len() < MAX_MODEL {
+                let f = shrink_failure(&self.driver, sess.file, f, self.sabotage);
+                self.model.push(f);
+            }
+        }
+    }
+}
+
+/// One op of a directed (`bnd`) history.
+fn go(sess: &mut Session, rep: &mut Report, rel: &mut String, k: char, ts: i64) -> String {
+    let ts = ts.max(BASE as i64 - 1_000_000_000_000) as u64;
+    rel.push(k);
+    sess.apply(&op_line(k, ts, 0), &mut Some(rep))
 }
 
 fn main() {
@@ -489,36 +684,66 @@ fn main() {
         "cid-histories",
         "exh: all well-formed event sequences of fixed length over clock offsets relative to the last committed cid; \
          rand: random histories (in-memory and file-backed, with restarts, init and ill-formed ops); \
+         bnd (search mode only): directed histories (commits on repeated/regressed clocks, aborted/failing/crashed \
+         transactions, restart at or below the last committed ts or the last wall clock, begin at or below the restart clock); \
          non-trivial = the case commits at least one transaction AND starts at least one transaction at a clock \
          reading not above the current maximum (repeat or regression, the lamport bump branch); distinct = distinct \
          relative event sequence",
     );
+    let sabotage = match args.extra.get("selftest").map(|s| s.as_str()) {
+        None => false,
+        Some("persist-curtime") => true,
+        Some(x) => panic!("unknown --selftest {x}"),
+    };
+    if sabotage {
+        rep.note("SELFTEST persist-curtime: the durable ts_max is overwritten by the harness at every restart; failures are expected");
+    }
     if let Some(path) = &args.replay {
         let v: serde_json::Value = serde_json::from_str(&std::fs::read_to_string(path).unwrap()).unwrap();
         let inp = &v["input"];
         let ops: Vec<String> =
             inp["ops"].as_array().unwrap().iter().map(|x| x.as_str().unwrap().to_string()).collect();
         let file = inp["backend"].as_str() == Some("file");
+        let sabotage = sabotage || inp["selftest"].as_str() == Some("persist-curtime");
         rep.case(Some(ops.join(";")));
-        if let Some(f) = replay_ops(&args.driver, file, &ops) {
+        // the whole history runs on the implementation; the model is compared up to its first
+        // disagreement, the oracle judges every op
+        let (m, o) = replay_ops(&args.driver, file, &ops, Opts { model: true, sabotage }, false);
+        for f in o.into_iter().chain(m) {
             rep.fail(f);
         }
         rep.write(&args.out);
         println!("c07: replay, {} failures", rep.failures.len());
         return;
     }
+    // `--only exh|bnd|rand` (testing aid, never passed by ./check): run a single part
+    let only = args.extra.get("only").cloned();
+    let part = |p: &str| only.as_deref().map(|o| o == p).unwrap_or(true);
     let mut model_requests = 0;
-    let mut failures: Vec<(bool, Failure)> = vec![];
+    let mut found = Found {
+        driver: args.driver.clone(),
+        sabotage,
+        model: vec![],
+        oracle: vec![],
+        oracle_only_cases: 0,
+    };
 
     // ---- exhaustive part -----------------------------------------------------------------
     // quick: length 4 over 5 clock offsets; thorough: length 5 over 4 offsets and length 6 over 3
-    let plans: Vec<(usize, Vec<i64>)> = if args.thorough() {
+    let plans: Vec<(usize, Vec<i64>)> = if !part("exh") {
+        vec![]
+    } else if args.thorough() {
         vec![(5, vec![-1, 0, 1, 3]), (6, vec![-1, 0, 2])]
     } else {
         vec![(4, vec![-1, 0, 1, 2, 3])]
     };
     let t0 = std::time::Instant::now();
+    let mut exh_complete = true;
     for (len, deltas) in &plans {
+        if found.done() {
+            exh_complete = false;
+            break;
+        }
         let seqs = enumerate(*len, deltas);
         rep.note(format!(
             "exhaustive: {} well-formed sequences of length {} over clock offsets {:?}",
@@ -526,17 +751,15 @@ fn main() {
             len,
             deltas
         ));
-        let mut sess = Session::new(&args.driver, None);
+        let mut sess = Session::new(&args.driver, None, found.opts());
         let mut since_boot = 0usize;
         for seq in &seqs {
             // bound the op log a replay has to re-run
             if since_boot >= 2000 {
                 sess.check_hist(1);
-                if let Some(f) = sess.fail.take() {
-                    failures.push((false, f));
-                }
-                model_requests += sess.drv.requests;
-                sess = Session::new(&args.driver, None);
+                found.collect(&mut sess);
+                model_requests += sess.requests();
+                sess = Session::new(&args.driver, None, found.opts());
                 since_boot = 0;
             }
             since_boot += 1;
@@ -564,34 +787,196 @@ fn main() {
             if rep.evaluations % 1499 == 1 {
                 rep.sample(json!({"stream": "exh", "relative": key, "last_ops": sess.log[sess.log.len() - seq.len()..].to_vec()}));
             }
-            if let Some(f) = sess.fail.take() {
-                failures.push((false, f));
-                model_requests += sess.drv.requests;
-                sess = Session::new(&args.driver, None);
-                since_boot = 0;
-                if failures.len() >= 3 {
-                    break;
+            found.case_done(&sess);
+            if sess.oracle_fail.is_some() {
+                // the property itself failed on the implementation: minimise, then stop
+                found.collect(&mut sess);
+                exh_complete = false;
+                break;
+            }
+            if sess.model_fail.is_some() {
+                // record (a few), then carry on: with a fresh server and model while disagreements
+                // are still being recorded, afterwards on the same server judged by the oracle only
+                found.collect(&mut sess);
+                if found.opts().model {
+                    model_requests += sess.requests();
+                    sess = Session::new(&args.driver, None, found.opts());
+                    since_boot = 0;
                 }
             }
         }
         sess.check_hist(1);
-        if let Some(f) = sess.fail.take() {
-            failures.push((false, f));
-        }
-        model_requests += sess.drv.requests;
+        found.collect(&mut sess);
+        model_requests += sess.requests();
     }
-    rep.exhaustive = true;
+    rep.exhaustive = exh_complete && part("exh");
     rep.note(format!("exhaustive part: {:.1}s", t0.elapsed().as_secs_f64()));
 
+    // ---- directed boundary histories (search mode only) -------------------------------------
+    let nbnd = if args.budget > 1 && part("bnd") { 4 * args.budget } else { 0 };
+    let t1 = std::time::Instant::now();
+    for i in 0..nbnd {
+        if found.done() {
+            break;
+        }
+        let mut r = Rng::for_case(args.seed, 1_000_000_000 + i);
+        let file = r.chance(1, 2);
+        let mut sess =
+            Session::new(&args.driver, if file { Some(tmp_db(&format!("b{i}"))) } else { None }, found.opts());
+        let rounds = r.range(4, 9);
+        let mut rel = String::new();
+        let mut inits = 1usize;
+        let mut commits = 0;
+        let mut boundary = 0;
+        let mut wall: i64 = (BOOT + 5) as i64; // wall clock of the last committed transaction
+        'hist: for _ in 0..rounds {
+            macro_rules! op {
+                ($k:expr, $ts:expr) => {{
+                    let got = go(&mut sess, &mut rep, &mut rel, $k, $ts);
+                    if sess.oracle_fail.is_some() {
+                        break 'hist;
+                    }
+                    got
+                }};
+            }
+            // A: commits on a repeated / regressed clock, with aborted, failing, ill-formed noise
+            let m = sess.last_committed_ts() as i64;
+            let mut clock: i64 = match r.below(5) {
+                0 => m + r.range(1, 1000) as i64,
+                1 => m,
+                2 => m - r.range(1, 5) as i64,
+                3 => m + 1,
+                _ => m - r.range(1_000, 10_000_000_000) as i64,
+            };
+            for _ in 0..r.range(1, 4) {
+                match r.below(10) {
+                    0 => {
+                        op!('b', clock);
+                        op!('a', 0);
+                    }
+                    1 => {
+                        op!('f', clock);
+                    }
+                    2 => {
+                        op!('c', 0); // no transaction
+                    }
+                    3 => {
+                        op!('b', clock);
+                        op!('b', clock); // busy
+                        op!('a', 0);
+                    }
+                    _ => {}
+                }
+                op!('b', clock);
+                if op!('c', 0) == "ok" {
+                    commits += 1;
+                    wall = clock;
+                }
+                clock += match r.below(10) {
+                    0..=4 => 0,
+                    5 | 6 => -1,
+                    7 => -(r.range(2, 40) as i64),
+                    8 => 1,
+                    _ => r.range(2, 40) as i64,
+                };
+            }
+            // B: an aborted / failing / crashed transaction right before the restart
+            match r.below(8) {
+                0 => {
+                    op!('b', clock); // left open: the restart is a crash
+                    rep.count("restart:with-open-txn");
+                }
+                1 => {
+                    op!('f', clock);
+                }
+                2 => {
+                    op!('b', clock);
+                    op!('a', 0);
+                }
+                _ => {}
+            }
+            // restart at an offset <= 0 (mostly) from the last committed ts / the last wall clock
+            let m = sess.last_committed_ts() as i64;
+            let rc = match r.below(10) {
+                0 => m,
+                1 => m - 1,
+                2 => m - 2,
+                3 => m - r.range(3, 10) as i64,
+                4 => m + 1,
+                5 => wall,
+                6 => wall - 1,
+                7 => wall + 1,
+                8 => m.min(wall) - r.range(1_000, 10_000_000_000) as i64,
+                _ => wall.min(m) + r.below(((m - wall).unsigned_abs()) + 1) as i64,
+            };
+            op!('r', rc);
+            rep.count(if rc <= m { "bnd:restart-at-or-below-max" } else { "bnd:restart-above-max" });
+            if r.chance(1, 8) {
+                op!('r', rc - r.below(3) as i64); // restart twice in a row
+            }
+            if r.chance(1, 16) && op!('i', rc) == "ok" {
+                inits += 1;
+            }
+            // C: begin at the same or a lower clock
+            let bc = rc - *r.pick(&[0i64, 0, 0, 1, 1, 2, -1]);
+            let m = sess.last_committed_ts() as i64;
+            if rc <= m && bc <= rc {
+                boundary += 1;
+                rep.count("bnd:begin-at-or-below-restart-clock-below-max");
+            }
+            op!('b', bc);
+            match r.below(8) {
+                0 => {
+                    op!('a', 0);
+                }
+                1 => {
+                    // crash with the transaction open, come back at the same clock
+                    rep.count("restart:with-open-txn");
+                    op!('r', rc);
+                    op!('b', bc);
+                    if op!('c', 0) == "ok" {
+                        commits += 1;
+                        wall = bc;
+                    }
+                }
+                _ => {
+                    if op!('c', 0) == "ok" {
+                        commits += 1;
+                        wall = bc;
+                    }
+                }
+            }
+        }
+        if sess.sut.txn.is_some() && sess.oracle_fail.is_none() {
+            sess.apply("abort", &mut Some(&mut rep));
+        }
+        sess.check_hist(inits);
+        rep.count(if file { "bnd:file-backed" } else { "bnd:in-memory" });
+        rep.count_n("bnd:events", rel.len() as u64);
+        let nontrivial = commits >= 1 && boundary >= 1;
+        rep.case(if nontrivial { Some(format!("bnd/{i}/{rel}")) } else { None });
+        if i < 1 {
+            rep.sample(json!({"stream": "bnd", "backend": if file {"file"} else {"mem"},
+                "first_ops": sess.log.iter().skip(3).take(16).collect::<Vec<_>>()}));
+        }
+        model_requests += sess.requests();
+        found.case_done(&sess);
+        found.collect(&mut sess);
+    }
+    if nbnd > 0 {
+        rep.note(format!("directed boundary part (search mode, budget x{}): {:.1}s", args.budget, t1.elapsed().as_secs_f64()));
+    }
+
     // ---- random histories ----------------------------------------------------------------
-    let ncases = args.cases(16, 120);
+    let ncases = if part("rand") { args.cases(16, 120) } else { 0 };
     for i in 0..ncases {
-        if failures.len() >= 3 {
+        if found.done() {
             break;
         }
         let mut r = Rng::for_case(args.seed, i);
         let file = r.chance(1, 2);
-        let mut sess = Session::new(&args.driver, if file { Some(tmp_db(&format!("r{i}"))) } else { None });
+        let mut sess =
+            Session::new(&args.driver, if file { Some(tmp_db(&format!("r{i}"))) } else { None }, found.opts());
         let nev = r.range(40, 160);
         let mut clock: i64 = (BOOT + 20) as i64;
         let mut inits = 1usize;
@@ -658,7 +1043,9 @@ fn main() {
             if k == 'r' && open {
                 rep.count("restart:with-open-txn");
             }
-            if sess.fail.is_some() {
+            // a model disagreement does not end the history: the implementation keeps running
+            // and the oracle keeps judging; only a failing input of the property ends it
+            if sess.oracle_fail.is_some() {
                 break;
             }
         }
@@ -672,17 +1059,28 @@ fn main() {
                 "first_ops": sess.log.iter().take(14).collect::<Vec<_>>(),
                 "committed": sess.committed.iter().take(6).map(|c| format!("{}:{}", c.0, c.1)).collect::<Vec<_>>()}));
         }
-        model_requests += sess.drv.requests;
-        if let Some(f) = sess.fail.take() {
-            failures.push((file, f));
-        }
+        model_requests += sess.requests();
+        found.case_done(&sess);
+        found.collect(&mut sess);
     }
 
-    for (file, f) in failures {
-        let f = shrink_failure(&args.driver, file, f);
+    if !found.model.is_empty() {
+        rep.note(format!(
+            "{} model disagreement(s) recorded (at most {MAX_MODEL}; then the model is no longer asked); {} case(s) ran \
+             wholly or partly on the implementation + oracle only",
+            found.model.len(),
+            found.oracle_only_cases
+        ));
+    }
+    if found.done() {
+        rep.note("stopped early: a failing input of the property was found on the implementation and minimised");
+    }
+    let (no, nm) = (found.oracle.len(), found.model.len());
+    // oracle failures first: they are the property's own verdict
+    for f in found.oracle.into_iter().chain(found.model) {
         rep.fail(f);
     }
     rep.model_requests = model_requests;
     rep.write(&args.out);
-    println!("c07: {} cases, {} failures", rep.evaluations, rep.failures.len());
+    println!("c07: {} cases, {} failures ({} impl-vs-oracle, {} impl-vs-model)", rep.evaluations, no + nm, no, nm);
 }
